@@ -203,9 +203,11 @@ def camelFold : Bool → Char → Str → Str
       (if last.isDigit && c.isDigit then ['_', u] else [u]) ++ camelFold false u cs
     else c :: camelFold false c cs
 
+/-- `name.chars().skip(if is_raw { 2 } else { 0 })` -/
+def camelBody (name : Str) : Str := if isRawIdentifier name then name.drop 2 else name
+
 def toUpperCamelCase (name : Str) : Str :=
-  let body := if isRawIdentifier name then name.drop 2 else name
-  let result := camelFold true '.' body
+  let result := camelFold true '.' (camelBody name)
   if startsWithDigit result then '_' :: result else result
 
 def isValidNameCharacter (c : Char) : Bool := c.isAlphanum || c = '_'
@@ -489,6 +491,16 @@ def handleNamesCheck : List String → Option String
       match firstDup ns with
       | some n => some s!"fail dup:{encodeStr n}"
       | none => some "ok"
+  | _ => none
+
+-- @handler fresh-check handleFreshCheck
+/-- Oracle for `generate_name`: `fresh-check <exclusions> <result>` → `ok` iff the result is not among
+the exclusions. -/
+def handleFreshCheck : List String → Option String
+  | [ns, r] => do
+    let ns ← decodeList ns
+    let r ← decodeStr r
+    if ns.contains r then some s!"fail excluded:{encodeStr r}" else some "ok"
   | _ => none
 
 -- @handler pairs-check handlePairsCheck
